@@ -79,7 +79,7 @@ def build_diffuse(scalar_cos):
             ax = v["trig"].axes[0]
             g = thrown_symbolic(v, ax)
             if g is None:
-                g = object.__new__(RegionGeom)
+                g = harness.partial(RegionGeom)
                 g.costhetaTrSubV, g.costhetaTrSubN, g.costhetaNSubV = v["cTrV"], v["cTrN"], v["cNV"]
                 g.betaTrSubN, g.event_mask = v["beta"], v["mask"]
             else:
@@ -154,7 +154,7 @@ def build_target(method, cut, scalar_cos):
     def build(v):
         from nuspacesim.simulation.geometry.region_geometry import RegionGeomToO
 
-        g = object.__new__(RegionGeomToO)
+        g = harness.partial(RegionGeomToO)
         hm = v["hm"]
         vm = v["vm"][hm]
         g.horizon_mask, g.volume_mask = hm, vm
